@@ -189,7 +189,7 @@ class C20(PropertyCheck):
             "comparison only), odd (3DS containers with textures outside the supported set - sides 4..40 that are not powers of two or not multiples of the tile, "
             "format ids 1, 6, 9, 10, 11 - whole and at every prefix: clean outcome, supported textures of an accepted file checked, model compared), far "
             "(a 66 KiB junk gap: offsets beyond 16 bits), f32-size (payload bytes requested by ctpk/bch around the binary32 exactness boundary), "
-            "codec-table (sjis_encoded = encoding_rs on all 1- and 2-byte strings), alias (several table entries sharing one stored payload with "
+            "codec-table (sjis_encoded = encoding_rs on all 1- and 2-byte strings), tpl-big-palette (RGB5A3 palettes of 32767..65535 entries), alias (several table entries sharing one stored payload with "
             "different formats / shapes), wide (a dimension of 2048..4104; above 4096 pixels implementation + oracle only); CGFX files with backward (negative) self-relative offsets in 40 % of the cases.  Model compared in both profiles (outcome class incl. bad magic, full pixel data / FNV of the Ok line for prefixes).  "
             "Non-trivial = container with at least one texture; distinct = distinct case line.")
     assumptions = [
@@ -313,6 +313,16 @@ class C20(PropertyCheck):
                 texs = [t] if j % 2 == 0 else [rand_textpl(rng, 8) if kind == "tpl" else rand_tex3ds(rng, sjis if kind == "ctpk" else utf8, 8), t]
                 img, ext = texcont.WRITERS[kind](texs, rng, **rand_knobs(rng, kind))
                 cases.append(Case("%s ref %s %s" % (kind, hx(img), tex_tokens(texs)), kind + "-wide"))
+            # TPL palettes with 32767..65535 entries (the entry count is a u16, the byte size 2 * count needs 17 bits); CI8 indices
+            # only reach the first 256 entries, the rest of the palette is payload that has to be read all the same
+            if kind == "tpl":
+                for j, ncol in enumerate([32767, 32768, 32769, 65535] if not thorough else [32767, 32768, 32769, 40000, 65534, 65535, 16384, 49152]):
+                    w, h = [(8, 4), (5, 3), (16, 8), (1, 1)][j % 4]
+                    t = dict(name=b"", w=w, h=h, fmt=9, data=bytes(rng.randrange(256) for _ in range(texref.ci8_data_size(w, h))),
+                             pal=rand_bytes(rng, 2 * ncol))
+                    texs = [t] if j % 2 == 0 else [rand_textpl(rng, 8), t]
+                    img, ext = texcont.WRITERS[kind](texs, rng, **rand_knobs(rng, kind))
+                    cases.append(Case("%s ref %s %s" % (kind, hx(img), tex_tokens(texs)), "tpl-big-palette"))
             # offsets beyond 16 bits: a junk gap of 66 KiB in front of one of the parts (whole-file cases only)
             for j in range(4 if not thorough else 24):
                 n = 1 + j % 3
